@@ -23,6 +23,7 @@ from sa.astutil import (
     stores,
 )
 from sa.index import AnalysisError, dotted, enclosing_stmt, norm, walk_ordered
+from sa.paths import enumerate_paths
 from sa.poly import to_poly
 
 EXPLANATION = (
@@ -43,281 +44,359 @@ PV = "pyxel.observation.parameter_values:ParameterValues"
 
 
 def _var_loop(ctx, f):
-    lps = [l for l in loops_in(f.node) if isinstance(l, ast.For) and dotted(l.iter) == "self._variables"]
+    lps = [l for l in loops_in(f.node) if isinstance(l, ast.For) and dotted(expand(f, l.iter)) == "self._variables"]
     if len(lps) != 1 or not isinstance(lps[0].target, ast.Name):
         return None
     return lps[0]
 
 
-def _is_list_test(t: ast.expr, v: str) -> bool:
-    return norm(t) in (f"isinstance({v}.values, list)", f"isinstance({v}.values, Sequence)", f"isinstance({v}.values, (list, tuple))")
+def _kind(p, v):
+    """Which kind of calibrated variable a path of a walker's loop body handles."""
+    sc = p.holds(f"{v}.values == '_'")
+    if sc is True:
+        return "scalar"
+    for t, pol in p.cond_texts():
+        if f"isinstance({v}.values, " in t and not t.startswith("not "):
+            if pol:
+                return "vector"
+            return "scalar" if sc is None else "other"
+    return "other" if sc is False else "unsplit"
 
 
-def _is_scalar_test(t: ast.expr, v: str) -> bool:
-    return norm(t) == f"{v}.values == '_'"
+def _width_poly(v, kind):
+    return to_poly(ast.parse(f"len({v}.values)" if kind == "vector" else "1", mode="eval").body)
 
 
-def _width_defs(ctx, f, lp, v, wname):
-    """Every definition of the width variable inside the loop, classified."""
-    out = []
-    for st, val in local_defs(f, wname):
-        if not contains(lp, st) or val is None:
-            continue
-        ts = enclosing_tests(st, stop=lp)
-        kind = None
-        if isinstance(val, ast.Constant) and val.value == 1:
-            if not ts or any(pol and _is_scalar_test(t, v) for t, pol in ts) or any((not pol) and _is_list_test(t, v) for t, pol in ts):
-                kind = "one"
-        elif norm(val) == f"len({v}.values)":
-            if any(pol and _is_list_test(t, v) for t, pol in ts) or any((not pol) and _is_scalar_test(t, v) for t, pol in ts):
-                kind = "len"
-        out.append((st, kind, norm(val), [(norm(t), p) for t, p in ts]))
-    return out
-
-
-def _offset_walk(ctx, f, label):
-    """Common obligations of a walker: offset starts at 0, advances by the width once per variable."""
+def _walk(ctx, f, label):
+    """Paths through one iteration of a walker + its loop-carried offset (name, paths) or None."""
     lp = _var_loop(ctx, f)
     c = f"{f.qual}#{label}"
     if lp is None:
         ctx.fail(c + "-loop", "does not iterate self._variables directly (declaration order is the only order)", where=f, node=f.node)
         return None
     v = lp.target.id
-    if order_breakers(lp.iter):
-        ctx.fail(c + "-loop", f"iterates {norm(lp.iter)}", where=f, node=lp.iter)
-    augs = [n for n in walk_ordered(lp) if isinstance(n, ast.AugAssign) and isinstance(n.op, ast.Add) and isinstance(n.target, ast.Name)]
-    return lp, v, augs
+    paths = [p for p in enumerate_paths(lp.body, containers=set())]
+    for p in paths:
+        if p.exit in ("continue", "break", "return"):
+            ctx.fail(c + "-exit", f"{p.exit} inside the walk skips variables under {p.cond_texts()}", where=f, node=p.exit_node)
+    paths = [p for p in paths if p.exit == "fall"]
+    # loop-carried names: assigned on some path from their own previous value
+    carried = set()
+    for p in paths:
+        for nm, val in p.env.items():
+            if nm.isidentifier() and nm in names_in(val):
+                carried.add(nm)
+    return lp, v, paths, carried
+
+
+def _check_offset(ctx, f, lp, v, paths, off, what="offset"):
+    inits = [val for st, val in local_defs(f, off) if not contains(lp, st)]
+    ok = len(inits) == 1 and isinstance(inits[0], ast.Constant) and inits[0].value == 0
+    ctx.check(ok, f.qual + f"#{what}-init", f"`{off}` starts at 0" if ok else f"{what} `{off}` does not start at 0", where=f, node=f.node)
+    for p in paths:
+        k = _kind(p, v)
+        if k == "other":
+            continue  # neither '_' nor a list: excluded by _set_bound's raise in the constructor
+        fin = p.env.get(off)
+        if k == "unsplit":
+            okk = False
+            why = f"{what} does not distinguish '_' from a list of '_' (path {p.cond_texts()})"
+        elif fin is None:
+            okk, why = False, f"{what} `{off}` is not advanced for a {k} variable (path {p.cond_texts()})"
+        else:
+            d = to_poly(fin) - to_poly(ast.Name(id=off, ctx=ast.Load()))
+            okk = d == _width_poly(v, k)
+            why = f"{k}: {off} advances by {'len(values)' if k == 'vector' else '1'}" if okk else f"{k} variable: `{off}` becomes {norm(fin)} (expected {off} + {'len(' + v + '.values)' if k == 'vector' else '1'})"
+        ctx.check(okk, f.qual + f"#advance:{k}:{'log' if p.holds(v + '.logarithmic') else 'lin'}", why, where=f, node=lp, facts={"path": [f"{t}={pol}" for t, pol in p.cond_texts()]})
+
+
+def _slice_ok(target: ast.expr, base: str, off: str, v: str, kind: str, allow_index: bool):
+    """target is base[..., off:off+W] / base[off:off+W] (vector or scalar) or base[off] (scalar)."""
+    if not (isinstance(target, ast.Subscript) and dotted(target.value) == base):
+        return False, f"not an access to {base}"
+    sl = target.slice
+    if isinstance(sl, ast.Tuple):
+        if not sl.elts or not all(isinstance(e, ast.Constant) and e.value is Ellipsis for e in sl.elts[:-1]):
+            return False, f"unexpected index {norm(sl)}"
+        sl = sl.elts[-1]
+    if isinstance(sl, ast.Slice):
+        if sl.lower is None or sl.upper is None or sl.step is not None:
+            return False, f"open slice {norm(sl)}"
+        ok = dotted(sl.lower) == off and (to_poly(sl.upper) - to_poly(sl.lower)) == _width_poly(v, kind)
+        return ok, f"[{norm(sl.lower)}:{norm(sl.upper)}]"
+    if allow_index and kind == "scalar":
+        return dotted(sl) == off, f"[{norm(sl)}]"
+    return False, f"[{norm(sl)}] for a {kind} variable"
 
 
 def r1_slice_walk(ctx):
-    """convert_to_parameters, update_processor and the parameter count walk self._variables with width 1 ('_') / len(values) (list), advance the offset by exactly that width once per variable, unconditionally, and address parameter[a] / parameter[a:a+width] of the current offset; _set_bound appends exactly `width` lower and upper bounds per variable in the same order and raises for any other shape of `values`."""
-    g_ok = 0
-    for name in ("convert_to_parameters", "update_processor"):
+    """convert_to_parameters, update_processor and the parameter count walk self._variables with width 1 ('_') / len(values) (list): on every path through one iteration the offset ends at offset + width, and the decision / parameter vector is addressed as [offset] or [offset:offset+width]; _set_bound appends exactly one lower and one upper block per variable and raises for any other shape of `values`.  Decided on path summaries (sa/paths.py), so intermediates, helper methods and if/elif vs guard clauses do not matter."""
+    for name, base in (("convert_to_parameters", "parameters"), ("update_processor", None)):
         f = ctx.func(f"{FD}.{name}")
-        r = _offset_walk(ctx, f, "walk")
+        r = _walk(ctx, f, "walk")
         if r is None:
             continue
-        lp, v, augs = r
-        g = ctx.cfg(f)
-        offs = {a.target.id for a in augs}
-        if len(offs) != 1:
-            ctx.fail(f.qual + "#offset", f"expected one offset variable advanced in the loop, found {sorted(offs)}", where=f, node=lp)
+        lp, v, paths, carried = r
+        if order_breakers(lp.iter):
+            ctx.fail(f.qual + "#walk-loop", f"iterates {norm(lp.iter)}", where=f, node=lp.iter)
+        base = base or f.params[1]
+        if len(carried) != 1:
+            ctx.fail(f.qual + "#offset", f"expected one offset variable advanced in the loop, found {sorted(carried)}", where=f, node=lp)
             continue
-        off = offs.pop()
-        inits = [val for st, val in local_defs(f, off) if not contains(lp, st)]
-        ok = len(inits) == 1 and isinstance(inits[0], ast.Constant) and inits[0].value == 0
-        ctx.check(ok, f.qual + "#offset-init", f"`{off}` starts at 0" if ok else f"offset `{off}` does not start at 0", where=f, node=f.node)
-        an = [n for a in augs for n in g.nodes_of(a)]
-        lo, hi = g.count_events_per_iteration(g.node_of(lp), an)
-        ctx.check((lo, hi) == (1, 1), f.qual + "#advance-once", "offset advanced exactly once per variable" if (lo, hi) == (1, 1) else f"offset advanced between {lo} and {hi} times per variable (e.g. only for some kinds of variables)", where=f, node=augs[0], facts={"min": lo, "max": hi})
-        w = augs[0].value
-        okw = isinstance(w, ast.Name)
-        ctx.check(okw, f.qual + "#advance", f"advance = width variable `{norm(w)}`" if okw else f"offset advances by {norm(w)} instead of the variable's width", where=f, node=augs[0])
-        if not okw:
-            continue
-        wd = _width_defs(ctx, f, lp, v, w.id)
-        kinds = {k for _, k, _, _ in wd}
-        bad = [(st, txt, ts) for st, k, txt, ts in wd if k is None]
-        ok = not bad and kinds == {"one", "len"}
-        ctx.check(ok, f.qual + "#width", "width = 1 for '_' and len(values) for a list" if ok else (f"width is set to {bad[0][1]} under {bad[0][2]}" if bad else f"width definitions found: {sorted(k for k in kinds if k)}"), where=f, node=bad[0][0] if bad else (wd[0][0] if wd else lp))
-        # slices
-        pname = f.params[1] if name == "update_processor" else None
-        subs = [n for n in walk_ordered(lp) if isinstance(n, ast.Subscript) and isinstance(n.value, ast.Name) and n.value.id in ("parameters", "parameter")]
-        if not subs:
+        off = next(iter(carried))
+        _check_offset(ctx, f, lp, v, paths, off)
+        n_acc = 0
+        for p in paths:
+            k = _kind(p, v)
+            if k in ("other", "unsplit"):
+                continue
+            # every access to the vector on this path: stores into it, and reads handed to set()
+            accs = []
+            for e in p.effects:
+                if e.kind == "store":
+                    try:
+                        t = ast.parse(e.target, mode="eval").body
+                    except SyntaxError:
+                        continue
+                    if isinstance(t, ast.Subscript) and dotted(t.value) == base:
+                        accs.append((t, e.node))
+                for sub in ast.walk(e.value) if e.value is not None else []:
+                    if isinstance(sub, ast.Subscript) and dotted(sub.value) == base:
+                        accs.append((sub, e.node))
+            for t, node in accs:
+                n_acc += 1
+                ok, why = _slice_ok(t, base, off, v, k, allow_index=(name == "update_processor"))
+                ctx.check(ok, f.qual + f"#slice:{k}", f"{k} variable addresses {base}{why}" if ok else f"{k} variable addresses {base}{why}: not its own [{off}:{off}+width] block", where=f, node=node)
+        if not n_acc:
             ctx.fail(f.qual + "#slices", "no access to the decision/parameter vector inside the walk", where=f, node=lp)
-        for sb in subs:
-            sl = sb.slice
-            if isinstance(sl, ast.Tuple):  # [..., start:stop]
-                sl = sl.elts[-1]
-            if isinstance(sl, ast.Slice):
-                lo_e = expand(lp, sl.lower) if sl.lower is not None else None
-                hi_e = expand(lp, sl.upper) if sl.upper is not None else None
-                ok = lo_e is not None and hi_e is not None and sl.step is None and dotted(lo_e) == off and (to_poly(hi_e) - to_poly(lo_e)) == to_poly(ast.Name(id=w.id))
-                ctx.check(ok, f.qual + "#slice", f"[{off}:{off}+{w.id}]" if ok else f"slice [{norm(lo_e)}:{norm(hi_e)}] is not [{off}:{off}+{w.id}]", where=f, node=sb)
-            else:
-                ok = dotted(expand(lp, sl)) == off
-                ts = enclosing_tests(sb, stop=lp)
-                sc = any(pol and _is_scalar_test(t, v) for t, pol in ts)
-                ctx.check(ok and sc, f.qual + "#index", f"scalar variable reads [{off}]" if ok and sc else f"scalar access [{norm(sl)}] / not under the scalar test", where=f, node=sb)
-        g_ok += 1
-    # update_processor: set(key=var.key, value=<that slice>)
+    # update_processor: set(key=var.key, value=<that block>) once per variable
     up = ctx.func(f"{FD}.update_processor")
-    lp = _var_loop(ctx, up)
-    if lp is not None:
-        v = lp.target.id
-        sets = [c for c in calls_in(lp) if isinstance(c.func, ast.Attribute) and c.func.attr == "set"]
-        ok = len(sets) == 2 and all(kw(c, "key") is not None and norm(kw(c, "key")) == f"{v}.key" for c in sets)
-        ctx.check(ok, up.qual + "#keys", "each slice is assigned to its own variable's key" if ok else "slices are not assigned to var.key", where=up, node=sets[0] if sets else lp)
+    r = _walk(ctx, up, "walk")
+    if r is not None:
+        lp, v, paths, carried = r
         pn = up.params[1]
-        for c in sets:
-            val = kw(c, "value")
-            okv = val is not None and isinstance(val, ast.Subscript) and dotted(val.value) == pn
-            ctx.check(okv, up.qual + "#value", f"value = {pn}[...]" if okv else f"value assigned is {norm(val)}", where=up, node=c)
+        for p in paths:
+            k = _kind(p, v)
+            if k in ("other", "unsplit"):
+                continue
+            sets = [e for e in p.effects if e.kind == "call" and e.target.endswith(".set")]
+            ok = len(sets) == 1 and kw(sets[0].value, "key") is not None and norm(kw(sets[0].value, "key")) == f"{v}.key"
+            ctx.check(ok, up.qual + f"#keys:{k}", "the block is assigned to its own variable's key, once" if ok else f"{k} variable: {len(sets)} set() calls / not assigned to {v}.key", where=up, node=sets[0].node if sets else lp)
+            for e in sets:
+                val = kw(e.value, "value")
+                okv = val is not None and isinstance(val, ast.Subscript) and dotted(val.value) == pn
+                ctx.check(okv, up.qual + f"#value:{k}", f"value = {pn}[...]" if okv else f"value assigned is {norm(val)}", where=up, node=e.node)
     # parameter count in __init__
     init = ctx.func(f"{FD}.__init__")
-    lp = _var_loop(ctx, init)
-    if lp is None:
-        ctx.fail(init.qual + "#count", "parameter count does not walk self._variables", where=init, node=init.node)
-    else:
-        v = lp.target.id
-        augs = [n for n in walk_ordered(lp) if isinstance(n, ast.AugAssign) and dotted(n.target) == "num_parameters"]
-        g = ctx.cfg(init)
-        ok = len(augs) == 1 and isinstance(augs[0].value, ast.Name)
-        if ok:
-            lo, hi = g.count_events_per_iteration(g.node_of(lp), g.nodes_of(augs[0]))
-            wd = _width_defs(ctx, init, lp, v, augs[0].value.id)
-            ok = (lo, hi) == (1, 1) and {k for _, k, _, _ in wd} == {"one", "len"}
-        ctx.check(ok, init.qual + "#count", "num_parameters = sum of widths" if ok else "the parameter count does not add each variable's width once", where=init, node=augs[0] if augs else lp)
+    r = _walk(ctx, init, "count")
+    if r is not None:
+        lp, v, paths, carried = r
+        if carried != {"num_parameters"} and "num_parameters" not in carried:
+            ctx.fail(init.qual + "#count", f"the parameter count does not add each variable's width once (loop-carried: {sorted(carried)})", where=init, node=lp)
+        else:
+            _check_offset(ctx, init, lp, v, paths, "num_parameters", what="count")
     # _set_bound
     sb = ctx.func(f"{FD}._set_bound")
     lp = _var_loop(ctx, sb)
     if lp is None:
         ctx.fail(sb.qual + "#walk-loop", "does not iterate self._variables directly", where=sb, node=sb.node)
         return
+    if order_breakers(lp.iter):
+        ctx.fail(sb.qual + "#walk-loop", f"iterates {norm(lp.iter)}", where=sb, node=lp.iter)
     v = lp.target.id
-    g = ctx.cfg(sb)
-    # branch structure: if scalar / elif vector / else raise
-    top = [s for s in lp.body if isinstance(s, ast.If)]
-    chain = None
-    for s in top:
-        if _is_scalar_test(s.test, v):
-            chain = s
-    ok = chain is not None and len(chain.orelse) == 1 and isinstance(chain.orelse[0], ast.If)
-    if not ok:
-        ctx.fail(sb.qual + "#branches", "scalar / vector / else-raise structure not found", where=sb, node=lp)
+    lo_name, hi_name = _bound_lists(sb)
+    if lo_name is None:
+        ctx.fail(sb.qual + "#return", "does not return (lower list, upper list)", where=sb, node=sb.node)
         return
-    vec = chain.orelse[0]
-    from sa.cfg import ends_in_raise
-
-    ok = f"{v}.values" in norm(vec.test) and "'_'" in norm(vec.test) and ends_in_raise(vec.orelse)
-    ctx.check(ok, sb.qual + "#other-shapes", "any other shape of `values` raises (invariant the other walkers rely on)" if ok else "a variable that is neither '_' nor a list of '_' is accepted silently", where=sb, node=vec)
-    for label, body in (("scalar", chain.body), ("vector", vec.body)):
-        mod = ast.Module(body=body, type_ignores=[])
-        apps = {}
-        for n in walk_ordered(mod):
-            if isinstance(n, ast.AugAssign) and isinstance(n.op, ast.Add) and dotted(n.target) in ("lbd", "ubd"):
-                apps.setdefault(dotted(n.target), []).append(n)
-        ok = set(apps) == {"lbd", "ubd"} and all(len(x) == 1 for x in apps.values())
-        if ok:
-            for nm, lst in apps.items():
-                n_ = lst[0]
-                ok = ok and not enclosing_tests(n_, stop=chain if label == "scalar" else vec)
-        ctx.check(ok, sb.qual + f"#{label}-append", "one lower and one upper append per variable, unconditionally" if ok else f"{label} branch does not append to both bound lists exactly once", where=sb, node=body[0])
-        if not ok:
+    paths = enumerate_paths(lp.body, containers={lo_name, hi_name})
+    for p in paths:
+        k = _kind(p, v)
+        if p.exit in ("continue", "break", "return"):
+            ctx.fail(sb.qual + "#walk-exit", f"{p.exit} inside the walk skips variables", where=sb, node=p.exit_node)
             continue
-        lo_src, hi_src = norm(apps["lbd"][0].value), norm(apps["ubd"][0].value)
-        if label == "scalar":
-            ok = lo_src == "[low_val]" and hi_src == "[high_val]"
-            ctx.check(ok, sb.qual + "#scalar-values", "appends [low], [high]" if ok else f"scalar bounds appended as {lo_src} / {hi_src}", where=sb, node=apps["lbd"][0])
-            un = [s for s in walk_ordered(mod) if isinstance(s, ast.Assign) and isinstance(s.targets[0], ast.Tuple) and norm(s.value) == f"{v}.boundaries"]
-            ok = len(un) == 1 and [dotted(x) for x in un[0].targets[0].elts] == ["low_val", "high_val"]
-            ctx.check(ok, sb.qual + "#scalar-unpack", "low, high = boundaries" if ok else "boundary pair unpacked in the wrong order", where=sb, node=un[0] if un else body[0])
+        if k in ("other", "unsplit") and p.exit != "raise":
+            # a shape that is neither '_' nor a list of '_' must raise: the other walkers rely on it
+            scalar_or_vector = p.holds(f"{v}.values == '_'") is True or any(pol and f"{v}.values" in t and "'_'" in t for t, pol in p.cond_texts())
+            if not scalar_or_vector:
+                ctx.fail(sb.qual + "#other-shapes", "a variable that is neither '_' nor a list of '_' is accepted silently", where=sb, node=lp, facts={"path": p.cond_texts()})
+                continue
+        if p.exit == "raise":
+            continue
+        lo, hi = p.extends(lo_name), p.extends(hi_name)
+        kk = "scalar" if p.holds(f"{v}.values == '_'") else "vector"
+        ok = len(lo) == 1 and len(hi) == 1
+        ctx.check(ok, sb.qual + f"#{kk}-append:{_pathkey(p, v)}", "one lower and one upper block per variable" if ok else f"{kk} branch does not append to both bound lists exactly once ({len(lo)} lower, {len(hi)} upper) on path {p.cond_texts()}", where=sb, node=(p.effects[0].node if p.effects else lp))
+    ok = any(p.exit == "raise" and p.holds(f"{v}.values == '_'") is False for p in paths)
+    ctx.check(ok, sb.qual + "#other-shapes", "any other shape of `values` raises (invariant the other walkers rely on)" if ok else "a variable that is neither '_' nor a list of '_' is accepted silently", where=sb, node=lp)
+
+
+def _pathkey(p, v):
+    out = []
+    for t, pol in p.cond_texts():
+        if t == f"{v}.logarithmic":
+            out.append("log" if pol else "lin")
+        elif "ndim" in t and pol:
+            out.append("ndim" + t.split("==")[-1].strip())
+    return "-".join(out) or "all"
+
+
+def _bound_lists(sb):
+    rets = [r for r in returns_of(sb) if r.value is not None]
+    if len(rets) == 1 and isinstance(rets[0].value, ast.Tuple) and len(rets[0].value.elts) == 2 and all(isinstance(e, ast.Name) for e in rets[0].value.elts):
+        return rets[0].value.elts[0].id, rets[0].value.elts[1].id
+    return None, None
+
+
+def _strip_bound(e: ast.expr):
+    """(core expression, number of log10 layers) of an appended bound block: list()/tolist()/
+    np.array() wrappers and log10 layers are peeled off."""
+    logs = 0
+    while True:
+        if isinstance(e, ast.Call) and isinstance(e.func, ast.Attribute) and e.func.attr == "tolist" and not e.args:
+            e = e.func.value
+        elif isinstance(e, ast.Call) and call_name(e) in ("list", "np.array", "numpy.array", "np.asarray", "tuple") and len(e.args) == 1 and not e.keywords:
+            e = e.args[0]
+        elif isinstance(e, ast.Call) and call_name(e) in ("math.log10", "np.log10", "numpy.log10", "log10") and len(e.args) == 1:
+            logs += 1
+            e = e.args[0]
         else:
-            ok = lo_src == "low_values.tolist()" and hi_src == "high_values.tolist()"
-            ctx.check(ok, sb.qual + "#vector-values", "appends the per-component low / high arrays" if ok else f"vector bounds appended as {lo_src} / {hi_src}", where=sb, node=apps["lbd"][0])
+            return e, logs
+
+
+def _bound_core(e: ast.expr, v: str):
+    """Classify the core of an appended block: ("scalar", col) for [B[col]], ("broadcast", col) for
+    [B[col]] * len(values), ("column", col) for B[:, col]; the log10 layers found inside are added."""
+    core, logs = _strip_bound(e)
+    B = f"{v}.boundaries"
+    if isinstance(core, ast.List) and len(core.elts) == 1:
+        inner, l2 = _strip_bound(core.elts[0])
+        for col in (0, 1):
+            if norm(inner) == f"{B}[{col}]":
+                return "scalar", col, logs + l2
+    if isinstance(core, ast.BinOp) and isinstance(core.op, ast.Mult):
+        for lst, n in ((core.left, core.right), (core.right, core.left)):
+            if isinstance(lst, ast.List) and len(lst.elts) == 1 and norm(n) == f"len({v}.values)":
+                inner, l2 = _strip_bound(lst.elts[0])
+                for col in (0, 1):
+                    if norm(inner) == f"{B}[{col}]":
+                        return "broadcast", col, logs + l2
+    if isinstance(core, ast.Call) and call_name(core) in ("np.full", "numpy.full", "np.repeat", "numpy.repeat") and len(core.args) == 2:
+        a0, a1 = core.args
+        if call_name(core).endswith("repeat"):
+            a0, a1 = a1, a0
+        inner, l2 = _strip_bound(a1)
+        if norm(a0) == f"len({v}.values)":
+            for col in (0, 1):
+                if norm(inner) == f"{B}[{col}]":
+                    return "broadcast", col, logs + l2
+    for col in (0, 1):
+        if norm(core) == f"{B}[:, {col}]":
+            return "column", col, logs
+    return None, None, logs
 
 
 def r2_log_pairing(ctx):
-    """_set_bound applies log10 exactly under `var.logarithmic` to both the lower and the upper bound of that variable; convert_to_parameters applies 10** exactly under `var.logarithmic` to the variable's own slice (same slice on both sides)."""
+    """_set_bound: on every path the appended lower AND upper block carry exactly one log10 when `var.logarithmic` holds on that path and none when it does not (a path that never tests it cannot be right for both); convert_to_parameters writes 10 ** block back to the same block exactly on the logarithmic paths and nothing otherwise, on a copy of the decision vector that it returns."""
     sb = ctx.func(f"{FD}._set_bound")
     lp = _var_loop(ctx, sb)
     if lp is None:
         return
     v = lp.target.id
-    logs = [i for i in walk_ordered(lp) if isinstance(i, ast.If) and norm(i.test) == f"{v}.logarithmic"]
-    ctx.check(len(logs) >= 2, sb.qual + "#log-branches", "log handling present in the scalar and in the vector branch" if len(logs) >= 2 else f"{len(logs)} `if var.logarithmic` blocks (expected one per branch)", where=sb, node=logs[0] if logs else lp)
-    for i in logs:
-        asg = {dotted(s.targets[0]): s.value for s in i.body if isinstance(s, ast.Assign)}
-        pairs = [("low_val", "high_val"), ("low_values", "high_values")]
-        ok = False
-        for lo, hi in pairs:
-            if set(asg) == {lo, hi}:
-                ok = all(isinstance(asg[n], ast.Call) and call_name(asg[n]) in ("math.log10", "np.log10", "numpy.log10") and dotted(asg[n].args[0]) == n for n in (lo, hi))
-        ctx.check(ok and not i.orelse, sb.qual + "#log10", "log10 of both bounds" if ok else f"logarithmic variable: log10 not applied to both of its bounds ({sorted(asg)})", where=sb, node=i)
-    # every appended bound passes, on all paths, through a log10 applied under `var.logarithmic`
-    g = ctx.cfg(sb)
-    header = g.node_of(lp)
-    for n in walk_ordered(lp):
-        if isinstance(n, ast.AugAssign) and isinstance(n.op, ast.Add) and dotted(n.target) in ("lbd", "ubd"):
-            src_names = names_in(n.value)
-            covering = []
-            for i in logs:
-                for s_ in i.body:
-                    if isinstance(s_, ast.Assign) and isinstance(s_.value, ast.Call) and call_name(s_.value).endswith("log10"):
-                        tgt = dotted(s_.targets[0])
-                        # the log-converted name feeds the appended value
-                        from sa.astutil import flow_closure
-
-                        if tgt in flow_closure(lp, n.value) and dotted(s_.value.args[0]) == tgt:
-                            covering.append(i)
-            an = g.nodes_of(n)
-            ok = bool(covering) and all(g.all_paths_pass(header, [a_], [x for i in covering for x in g.nodes_of(i)]) for a_ in an)
-            ctx.check(ok, sb.qual + f"#log-path:{dotted(n.target)}@{'vector' if 'values' in norm(n.value) else 'scalar'}", "every path to the append passes the `if var.logarithmic` conversion of that bound" if ok else f"a path appends {norm(n.value)} to {dotted(n.target)} without passing a log10 conversion under `var.logarithmic` (logarithmic variables would get linear bounds)", where=sb, node=n)
-    # log10 outside those blocks
-    for c in calls_in(lp):
-        if call_name(c).endswith("log10") and not any(contains(i, c) for i in logs):
-            ctx.fail(sb.qual + "#log10-unconditional", "log10 applied outside `if var.logarithmic`", where=sb, node=c)
-    cp = ctx.func(f"{FD}.convert_to_parameters")
-    lp = _var_loop(ctx, cp)
-    if lp is None:
+    lo_name, hi_name = _bound_lists(sb)
+    if lo_name is None:
         return
-    v = lp.target.id
-    pw = [s for s in walk_ordered(lp) if isinstance(s, ast.Assign) and isinstance(s.targets[0], ast.Subscript) and dotted(s.targets[0].value) == "parameters"]
-    ok = len(pw) == 1
-    why = f"{len(pw)} writes into the parameter vector"
-    if ok:
-        s = pw[0]
-        ts = enclosing_tests(s, stop=lp)
-        ok = len(ts) == 1 and ts[0][1] and norm(ts[0][0]) == f"{v}.logarithmic"
-        val = s.value
-        pow_ok = isinstance(val, ast.Call) and call_name(val) in ("np.power", "numpy.power") and len(val.args) == 2 and norm(val.args[0]) == "10" and norm(val.args[1]) == norm(s.targets[0])
-        pow_ok = pow_ok or (isinstance(val, ast.BinOp) and isinstance(val.op, ast.Pow) and norm(val.left) in ("10", "10.0") and norm(val.right) == norm(s.targets[0]))
-        why = "10 ** slice written back to the same slice, only for logarithmic variables" if ok and pow_ok else f"write `{norm(s)[:80]}` under {[(norm(t), p) for t, p in ts]}"
-        ok = ok and pow_ok
-    ctx.check(ok, cp.qual + "#pow10", why, where=cp, node=pw[0] if pw else lp)
+    n = 0
+    for p in enumerate_paths(lp.body, containers={lo_name, hi_name}):
+        if p.exit != "fall":
+            continue
+        lg = p.holds(f"{v}.logarithmic")
+        for nm, label in ((lo_name, "lower"), (hi_name, "upper")):
+            for e in p.extends(nm):
+                n += 1
+                _, _, logs = _bound_core(e, v)
+                if lg is None:
+                    ok, why = False, f"{label} bound {norm(e)[:70]} is appended on a path that never tests `{v}.logarithmic`: logarithmic and linear variables get the same bounds"
+                elif lg:
+                    ok = logs == 1
+                    why = "log10 of the bound for a logarithmic variable" if ok else f"logarithmic variable: {label} bound appended as {norm(e)[:70]} ({logs} log10 applications instead of one)"
+                else:
+                    ok = logs == 0
+                    why = "bound as declared for a linear variable" if ok else f"linear variable: {label} bound appended as {norm(e)[:70]} (log10 applied outside `{v}.logarithmic`)"
+                ctx.check(ok, sb.qual + f"#log:{label}:{'scalar' if p.holds(v + ".values == '_'") else 'vector'}:{_pathkey(p, v)}", why, where=sb, node=next((x.node for x in p.effects if x.value is e), lp))
+    ctx.floor(n, 8, rule="C10.R2")
+    cp = ctx.func(f"{FD}.convert_to_parameters")
+    r = _walk(ctx, cp, "walk")
+    if r is None:
+        return
+    lp, v, paths, carried = r
+    for p in paths:
+        k = _kind(p, v)
+        if k in ("other", "unsplit"):
+            continue
+        lg = p.holds(f"{v}.logarithmic")
+        ws = [e for e in p.effects if e.kind == "store" and e.target.startswith("parameters[")]
+        key = cp.qual + f"#pow10:{k}:{'log' if lg else 'lin'}"
+        if lg is None:
+            ctx.fail(key, "10 ** is not decided by `var.logarithmic` on this path", where=cp, node=lp)
+        elif not lg:
+            ctx.check(not ws, key, "linear variable: value passed through unchanged" if not ws else f"linear variable is rewritten: {ws[0]}", where=cp, node=ws[0].node if ws else lp)
+        else:
+            ok = len(ws) == 1
+            why = f"{len(ws)} writes into the parameter vector for a logarithmic variable"
+            if ok:
+                val = ws[0].value
+                tgt = ws[0].target
+                pow_ok = isinstance(val, ast.Call) and call_name(val) in ("np.power", "numpy.power") and len(val.args) == 2 and norm(val.args[0]) in ("10", "10.0") and norm(val.args[1]) == tgt
+                pow_ok = pow_ok or (isinstance(val, ast.BinOp) and isinstance(val.op, ast.Pow) and norm(val.left) in ("10", "10.0") and norm(val.right) == tgt)
+                ok = pow_ok
+                why = "10 ** block written back to the same block" if ok else f"write `{tgt} = {norm(val)[:70]}` is not 10 ** (the same block)"
+            ctx.check(ok, key, why, where=cp, node=ws[0].node if ws else lp)
     # the conversion works on a copy of the decision vector and returns it
     d = local_defs(cp, "parameters")
     ok = len(d) == 1 and norm(d[0][1]) in (f"np.array({cp.params[1]})", f"np.array({cp.params[1]}, dtype=float)", f"np.copy({cp.params[1]})")
-    rets = [r for r in returns_of(cp) if r.value is not None]
+    rets = [r_ for r_ in returns_of(cp) if r_.value is not None]
     ok = ok and len(rets) == 1 and dotted(rets[0].value) == "parameters"
     ctx.check(ok, cp.qual + "#copy", "works on and returns a copy of the decision vector" if ok else "conversion does not return a converted copy of the decision vector", where=cp, node=d[0][0] if d else cp.node)
 
 
 def r3_per_component_boundaries(ctx):
-    """2-D boundaries: column 0 -> lower, column 1 -> upper; 1-D boundaries broadcast to len(values) entries; ParameterValues validates the shapes (len(values), 2) / (2,)."""
+    """_set_bound, per path: a '_' variable appends [boundaries[0]] to the lower and [boundaries[1]] to the upper list; a list variable with 1-D boundaries appends the pair broadcast to len(values) entries, with 2-D boundaries column 0 to the lower and column 1 to the upper list; ParameterValues validates the shapes (len(values), 2) / (2,)."""
     sb = ctx.func(f"{FD}._set_bound")
     lp = _var_loop(ctx, sb)
     if lp is None:
         return
     v = lp.target.id
-    want = {"low_values": "0", "high_values": "1"}
-    n2 = [i for i in walk_ordered(lp) if isinstance(i, ast.If) and norm(i.test) == f"{v}.boundaries.ndim == 2"]
-    ok = len(n2) == 1
-    if ok:
-        asg = {dotted(s.targets[0]): s.value for s in n2[0].body if isinstance(s, (ast.Assign,))}
-        ok = set(asg) == set(want) and all(norm(asg[k]) == f"{v}.boundaries[:, {c}]" for k, c in want.items())
-    ctx.check(ok, sb.qual + "#columns", "column 0 -> lower bounds, column 1 -> upper bounds" if ok else "boundary columns are mapped to the wrong bound", where=sb, node=n2[0] if n2 else lp)
-    n1 = [i for i in walk_ordered(lp) if isinstance(i, ast.If) and norm(i.test) == f"{v}.boundaries.ndim == 1"]
-    ok = len(n1) == 1
-    if ok:
-        asg = {}
-        for s in n1[0].body:
-            if isinstance(s, (ast.Assign, ast.AnnAssign)):
-                t = s.targets[0] if isinstance(s, ast.Assign) else s.target
-                asg[norm(t)] = s.value
-        un = asg.get("(low_val, high_val)") or asg.get("low_val, high_val")
-        ok = un is not None and norm(un) == f"{v}.boundaries"
-        for k, src in (("low_values", "low_val"), ("high_values", "high_val")):
-            e = asg.get(k)
-            ok = ok and e is not None and f"len({v}.values)" in norm(e) and src in names_in(e) and not [x for x in ast.walk(e) if isinstance(x, ast.Subscript)]
-    ctx.check(ok, sb.qual + "#broadcast", "shared pair broadcast to len(values) components" if ok else "shared boundaries are not broadcast to one pair per component", where=sb, node=n1[0] if n1 else lp)
+    lo_name, hi_name = _bound_lists(sb)
+    if lo_name is None:
+        return
+    n = 0
+    for p in enumerate_paths(lp.body, containers={lo_name, hi_name}):
+        if p.exit != "fall":
+            continue
+        scalar = p.holds(f"{v}.values == '_'") is True
+        nd = 2 if p.holds(f"{v}.boundaries.ndim == 2") else (1 if p.holds(f"{v}.boundaries.ndim == 1") else None)
+        want_shape = "scalar" if scalar else ("column" if nd == 2 else "broadcast" if nd == 1 else None)
+        for nm, col, label in ((lo_name, 0, "lower"), (hi_name, 1, "upper")):
+            for e in p.extends(nm):
+                n += 1
+                shape, c, _ = _bound_core(e, v)
+                ok = shape is not None and c == col and (want_shape is None or shape == want_shape)
+                if ok:
+                    why = {"scalar": f"[boundaries[{col}]]", "broadcast": f"boundaries[{col}] broadcast to len(values) components", "column": f"column {col} of the per-component boundaries"}[shape] + f" -> {label} bounds"
+                elif shape is not None and c != col:
+                    why = f"{label} bounds are built from boundaries column/entry {c}: lower and upper are swapped"
+                elif shape is not None:
+                    why = f"{label} bounds for {'a scalar' if scalar else f'{nd}-D boundaries'} appended as {norm(e)[:70]} ({shape})"
+                else:
+                    why = f"{label} bounds appended as {norm(e)[:80]}: not the variable's declared boundaries"
+                ctx.check(ok, sb.qual + f"#columns:{label}:{want_shape or 'any'}:{_pathkey(p, v)}", why, where=sb, node=next((x.node for x in p.effects if x.value is e), lp))
+    ctx.floor(n, 8, rule="C10.R3")
     pv = ctx.func(f"{PV}.__init__")
     gs = raising_ifs(pv.node)
-    t1 = [i for i in gs if norm(i.test) == "boundaries_array.shape != (2,)"]
-    t2 = [i for i in gs if norm(i.test) == "boundaries_array.shape != (len(values), 2)"]
+    t1 = [i for i in gs if norm(expand(pv, i.test, _seen={"boundaries_array"})) == "boundaries_array.shape != (2,)"]
+    t2 = [i for i in gs if norm(expand(pv, i.test, _seen={"boundaries_array"})) == "boundaries_array.shape != (len(values), 2)"]
     ok = len(t1) == 1 and len(t2) == 1
     ctx.check(ok, pv.qual + "#shape", "boundary shapes (2,) / (len(values), 2) enforced" if ok else "ParameterValues no longer validates the shape of the boundaries", where=pv, node=(t1 + t2 + [pv.node])[0])
-    g = ctx.cfg(pv)
     sts = [st for st, t in stores(pv.node, lambda t: dotted(t) == "self._boundaries")]
     ok = len(sts) == 1 and dotted(sts[0].value) == "boundaries_array"
     ctx.check(ok, pv.qual + "#store", "stores the validated array" if ok else "stores something else than the validated boundaries", where=pv, node=sts[0] if sts else pv.node)
